@@ -42,3 +42,63 @@ class RecordingRegressor(BaseEstimator, RegressorMixin):
             out = np.full(n, 100000.0 + 100 * k)
             return np.asarray(out[0]) if n == 1 else out   # 0-d for one row (numpy>=2.4, DESIGN 1.4a)
         return np.tile(100000.0 + 100 * k + np.arange(self.n_outputs_), (n, 1))
+
+
+def make_recording_forecaster():
+    """Factory (imports sktime lazily): a forecaster deriving from the repo's own base
+    classes that logs fit / update / predict with the time points and values it is
+    given and returns identifiable forecasts F(k, i) = 500000 + 1000*k + i."""
+    import pandas as pd
+    from sktime.forecasting.base._sktime import _SktimeForecaster, _OptionalForecastingHorizonMixin
+
+    class RecordingForecaster(_OptionalForecastingHorizonMixin, _SktimeForecaster):
+        def __init__(self, tag="f", bias=0.0):
+            self.tag = tag
+            self.bias = bias
+            super(RecordingForecaster, self).__init__()
+
+        def _log(self, **ev):
+            LOG.setdefault(self.tag, []).append(ev)
+
+        def fit(self, y, X=None, fh=None):
+            self._set_y_X(y, X)
+            self._set_fh(fh)
+            self._log(ev="fit", index=[int(i) for i in y.index], values=[float(v) for v in y.values],
+                      fh=None if fh is None else [int(i) for i in self.fh.to_pandas()],
+                      fh_rel=None if fh is None else bool(self.fh.is_relative),
+                      x=None if X is None else [int(i) for i in X.index])
+            self._is_fitted = True
+            return self
+
+        def update(self, y, X=None, update_params=True):
+            self.check_is_fitted()
+            self._update_y_X(y, X)
+            self._log(ev="update", index=[int(i) for i in y.index], values=[float(v) for v in y.values],
+                      upd=bool(update_params), x=None if X is None else [int(i) for i in X.index])
+            return self
+
+        def _predict(self, fh, X=None, return_pred_int=False, alpha=0.05):
+            COUNTER[self.tag] = COUNTER.get(self.tag, 0) + 1
+            k = COUNTER[self.tag]
+            idx = fh.to_absolute(self.cutoff).to_pandas()
+            self._log(ev="predict", fh=[int(i) for i in idx], cutoff=int(self.cutoff),
+                      x=None if X is None else [int(i) for i in X.index])
+            return pd.Series([500000.0 + 1000 * k + i + 1 + self.bias for i in range(len(idx))], index=idx)
+
+    return RecordingForecaster
+
+
+class RecordingMetric:
+    """Metric stub: logs its two arguments; the k-th call returns 7000 + k."""
+
+    def __init__(self, tag="m", greater_is_better=False):
+        self.tag = tag
+        self.name = "Rec"
+        self.greater_is_better = greater_is_better
+
+    def __call__(self, a, b, **kw):
+        COUNTER[self.tag] = COUNTER.get(self.tag, 0) + 1
+        LOG.setdefault(self.tag, []).append(
+            {"ev": "metric", "a": [float(v) for v in a.values], "b": [float(v) for v in b.values],
+             "ai": [int(i) for i in a.index], "bi": [int(i) for i in b.index]})
+        return 7000.0 + COUNTER[self.tag]
